@@ -375,6 +375,20 @@ type Obj struct {
 	Payload []byte
 	PStart  int    // offset of the first payload byte inside Bin (len(Bin) when there is no payload)
 	Format  string // how it is stored (plain, combined, zstd, combined+zstd, api ...)
+	// Enc, when set, is the compressed form to store (a zstd frame built with chosen
+	// block length, c11_multiblock.go); otherwise compressed formats use Zstd(Bin).
+	Enc []byte
+	// ExtraMarks are further payload positions of interest for directed requests (where
+	// the blocks of the compressed frame and the segments of the payload meet).
+	ExtraMarks []uint64
+}
+
+// Compressed returns the compressed form of the object as it is stored on disk.
+func (o *Obj) Compressed() []byte {
+	if o.Enc != nil {
+		return o.Enc
+	}
+	return Zstd(o.Bin)
 }
 
 // Judge compares an answer with the reference and reports a violation through r.
@@ -571,7 +585,7 @@ func Marks(o *Obj) []uint64 {
 			m = append(m, uint64(p))
 		}
 	}
-	return m
+	return append(m, o.ExtraMarks...)
 }
 
 // ---------------------------------------------------------------------------------
@@ -609,7 +623,7 @@ func PlantCombined(root string, depth int, objs []*Obj, compressed []bool) error
 	for i, o := range objs {
 		member := o.Bin
 		if compressed[i] {
-			member = Zstd(o.Bin)
+			member = o.Compressed()
 		}
 		var pref [38]byte
 		pref[0] = 0x7f
